@@ -346,6 +346,12 @@ def _init_no_shell():
 _init_no_shell()
 
 
+def _rewrite_super(tree):
+    for nd in ast.walk(tree):
+        if isinstance(nd, ast.Call) and isinstance(nd.func, ast.Name) and nd.func.id == "super" and not nd.args:
+            nd.func = ast.Name("_rt_super", ast.Load())
+
+
 def _unwrap(fn):
     from numba.core.dispatcher import Dispatcher
     if isinstance(fn, Dispatcher):
@@ -357,7 +363,13 @@ def _unwrap(fn):
 
 def source_of(fn):
     fn = _unwrap(fn)
-    return textwrap.dedent(inspect.getsource(fn))
+    src = inspect.getsource(fn)
+    lines = src.split("\n")
+    k = len(lines[0]) - len(lines[0].lstrip())
+    if k:
+        # like textwrap.dedent, but tolerant of comment lines / string contents at column 0
+        lines = [(ln[k:] if ln[:k].strip() == "" else ln) for ln in lines]
+    return "\n".join(lines)
 
 
 def _record(fn, src):
@@ -384,6 +396,8 @@ def transform(fn, overrides=None, _memo=None, merge=True, also=(), safe_calls=()
     fd.decorator_list = []
     xf = Xf(merge=merge, safe_calls=safe_calls)
     tree = xf.visit(tree)
+    if "_rt_super" in overrides:
+        _rewrite_super(tree)
     cls_name = None
     qn = fn.__qualname__.split(".")
     g = dict(fn.__globals__)
@@ -547,6 +561,8 @@ def extract_block(fn, pick, overrides=None, merge=True, name="block", extra_args
     newfd.type_params = []
     mod = ast.Module([newfd], [])
     mod = xf.visit(mod)
+    if "_rt_super" in overrides:
+        _rewrite_super(mod)
     ast.fix_missing_locations(mod)
     g = dict(fn.__globals__)
     memo = {}
@@ -564,10 +580,26 @@ def extract_block(fn, pick, overrides=None, merge=True, name="block", extra_args
     return f
 
 
+class _Unset:
+    """placeholder for a local the caller did not provide: any use is a harness error"""
+
+    def _boom(self, *a, **k):
+        raise EngineError("extracted block read a local that the harness did not provide")
+    __getattr__ = __add__ = __radd__ = __sub__ = __rsub__ = __mul__ = __rmul__ = __lt__ = __le__ = __gt__ = __ge__ = _boom
+    __getitem__ = __setitem__ = __call__ = __bool__ = __index__ = __iter__ = __len__ = __floordiv__ = __mod__ = __neg__ = _boom
+
+    def __eq__(self, o):
+        self._boom()
+
+    def __ne__(self, o):
+        self._boom()
+    __hash__ = None
+
+
+UNSET = _Unset()
+
+
 def call_block(f, **kw):
-    """call an extracted block with keyword state; names the block does not use are ignored, names it
-    needs but were not given are an error"""
-    missing = [a for a in f._args if a not in kw]
-    if missing:
-        raise EngineError(f"block needs state {missing}")
-    return f(**{a: kw[a] for a in f._args})
+    """call an extracted block with keyword state; names the block mentions but the caller did not give are
+    passed as UNSET (reading one is a harness error, overwriting it is fine)"""
+    return f(**{a: kw.get(a, UNSET) for a in f._args})
